@@ -55,6 +55,11 @@ type Rec struct {
 	Procs  []procInfo `json:"procs,omitempty"`
 	Procs2 []procInfo `json:"procs2,omitempty"`
 	WaitMs int64      `json:"wait_ms,omitempty"`
+	// C16B: the device's own account of itself (fakeocc state log)
+	Device   string `json:"device,omitempty"`    // its real state (last completed step)
+	InFlight int    `json:"in_flight,omitempty"` // steps it is handling right now
+	Steps    int    `json:"steps,omitempty"`     // steps it has started so far
+	Trace    string `json:"trace,omitempty"`
 }
 
 type opHandle struct {
@@ -248,6 +253,9 @@ func (r *runner) commandInfo() (value string, args []string) {
 	if ch.Wrap {
 		args = append(args, "--wrap")
 	}
+	if ch.SlowOn != "" {
+		args = append(args, "--slow-on", ch.SlowOn, "--slow-ms", fmt.Sprint(ch.SlowMs))
+	}
 	if ch.TermExit >= 0 {
 		args = append(args, "--term-exit-code", fmt.Sprint(ch.TermExit))
 	}
@@ -267,7 +275,8 @@ func (r *runner) buildTaskInfo() mesos.TaskInfo {
 	}
 	mode := c.Kind
 	tci := map[string]interface{}{
-		"env":         []string{tokenVar + "=" + c.Token, pidfileVar + "=" + filepath.Join(c.Dir, "pids")},
+		"env": []string{tokenVar + "=" + c.Token, pidfileVar + "=" + filepath.Join(c.Dir, "pids"),
+			"VERIF_C17_STATELOG=" + filepath.Join(c.Dir, "statelog")},
 		"shell":       c.Child.Shell,
 		"value":       value,
 		"arguments":   args,
@@ -412,6 +421,59 @@ func (r *runner) bigTransitionData(s Step) []byte {
 	return b
 }
 
+// deviceView reads the device's state log: its real state, how many steps it has begun and how
+// many of them it is still handling.
+func (r *runner) deviceView() (state string, begun, inflight int, trace string) {
+	state = "STANDBY"
+	if r.c.Kind == "fairmq" {
+		state = "IDLE"
+	}
+	b, err := os.ReadFile(filepath.Join(r.c.Dir, "statelog"))
+	if err != nil {
+		return
+	}
+	var tr []string
+	for _, ln := range strings.Split(string(b), "\n") {
+		if len(ln) < 3 {
+			continue
+		}
+		evt, st, _ := strings.Cut(ln[2:], "|")
+		switch ln[0] {
+		case 'B':
+			begun++
+			inflight++
+		case 'E':
+			inflight--
+			state = st
+			tr = append(tr, evt+"->"+st)
+		case 'R':
+			inflight--
+			tr = append(tr, evt+" refused in "+st)
+		}
+	}
+	return state, begun, inflight, strings.Join(tr, "; ")
+}
+
+// awaitQuiescent waits until the device handles nothing and has started nothing new for 1.5 s.
+func (r *runner) awaitQuiescent(boundMs int) {
+	deadline := time.Now().Add(time.Duration(boundMs) * time.Millisecond)
+	lastBegun, since := -1, time.Now()
+	for {
+		st, begun, inflight, trace := r.deviceView()
+		if begun != lastBegun || inflight > 0 {
+			lastBegun, since = begun, time.Now()
+		} else if time.Since(since) >= 1500*time.Millisecond {
+			r.rec(Rec{Ev: "device-final", Device: st, Steps: begun, Trace: trace})
+			return
+		}
+		if time.Now().After(deadline) {
+			r.rec(Rec{Ev: "device-final", Device: st, Steps: begun, InFlight: inflight, Trace: trace, Msg: "not-quiescent"})
+			return
+		}
+		time.Sleep(50 * time.Millisecond)
+	}
+}
+
 func errStr(err error) string {
 	if err == nil {
 		return ""
@@ -516,6 +578,9 @@ func runOneCase(path string) {
 		case "await":
 			r.awaitCond(s)
 			continue
+		case "await-quiescent":
+			r.awaitQuiescent(s.Ms)
+			continue
 		case "storm":
 			if !launched {
 				r.rec(Rec{Ev: "skipped", Name: s.Op, Msg: "task not launched"})
@@ -576,7 +641,11 @@ func runOneCase(path string) {
 		switch s.Op {
 		case "transition":
 			data := r.transitionData(s)
-			h = r.startOp("transition:"+s.Evt, func() (string, string) {
+			opName := "transition:" + s.Evt
+			if s.Judged {
+				opName = "judged:" + s.Evt
+			}
+			h = r.startOp(opName, func() (string, string) {
 				// as handlers.go:handleMessageEvent
 				cmd, err := task.UnmarshalTransition(data)
 				if err != nil {
@@ -609,6 +678,11 @@ func runOneCase(path string) {
 			opName := s.Op
 			if !r.waitOp(h, c.opBoundMs(opName)) {
 				hung = true
+			}
+			if s.Judged && !hung {
+				// what the device is doing at the moment the answer is there
+				st, begun, inflight, trace := r.deviceView()
+				r.rec(Rec{Ev: "device-at-answer", Device: st, Steps: begun, InFlight: inflight, Trace: trace})
 			}
 		}
 	}
